@@ -58,7 +58,7 @@ func Distinct(arg reflect.Value) interface{} {
 			}
 
 			visited[key] = struct{}{}
-			distinctValues = reflect.Append(distinctValues, item)
+			distinctValues = reflect.Append(distinctValues, items.Index(i))
 		}
 		return distinctValues.Interface()
 	}
